@@ -213,9 +213,28 @@ class ChainGen:
                     continue
                 if new_shape[0] != "leaf":
                     packaged = True
+                # the package as the first element of an inner sequence: First(Select(seq, j: package)); the next stage's
+                # projections then reach the First() call only through substitution (tuples/lists only: the attribute form
+                # on a dictionary behind First() is the open finding listed in KNOWN_OPEN)
+                if new_shape[0] == "tup" and not has_dict(new_shape) and r.random() < 0.25:
+                    seq = self.leaf_expr("seqrec", avail)
+                    if seq is not None:
+                        j = self.binder(self.names_in(avail))
+                        inner = self.build(new_shape, avail + [(N(j), "rec")])
+                        if inner is not None:
+                            sel = self.op("Select", seq, lam(j, inner))
+                            body = fcall("First", sel) if r.random() < 0.6 else mcall(sel, "First")
             q = self.op("Select", q, lam(p, body))
             shape = new_shape
         return q, shape, packaged
+
+
+def has_dict(shape) -> bool:
+    if shape[0] == "dict":
+        return True
+    if shape[0] == "tup":
+        return any(has_dict(s) for s in shape[1])
+    return False
 
 
 def pkg_nodes(e: ast.AST):
@@ -235,6 +254,17 @@ def strip_result(e: ast.expr, shape):
     def strip(body, sh):
         if sh[0] == "leaf":
             return [body]
+        # the result package may sit behind First(Select(seq, j: package)) (function or method form of either call)
+        inner = None
+        if isinstance(body, ast.Call) and isinstance(body.func, ast.Name) and body.func.id == "First" and len(body.args) == 1:
+            inner = body.args[0]
+        elif isinstance(body, ast.Call) and isinstance(body.func, ast.Attribute) and body.func.attr == "First" and not body.args:
+            inner = body.func.value
+        if inner is not None and isinstance(inner, ast.Call):
+            if isinstance(inner.func, ast.Name) and inner.func.id == "Select" and len(inner.args) == 2 and isinstance(inner.args[1], ast.Lambda):
+                return [inner.args[0]] + strip(inner.args[1].body, sh)
+            if isinstance(inner.func, ast.Attribute) and inner.func.attr == "Select" and len(inner.args) == 1 and isinstance(inner.args[0], ast.Lambda):
+                return [inner.func.value] + strip(inner.args[0].body, sh)
         if sh[0] == "tup" and isinstance(body, (ast.Tuple, ast.List)) and len(body.elts) == len(sh[1]):
             return [x for el, s in zip(body.elts, sh[1]) for x in strip(el, s)]
         if sh[0] == "dict" and isinstance(body, ast.Dict) and len(body.keys) == len(sh[1]):
@@ -308,6 +338,9 @@ PROBES = [
     ("Select(Select(ds, lambda e: {0: e.jets, 1: e.met}), lambda d: Count(d[0]) + d[1])", ("leaf", "int")),
     ("Select(Select(ds, lambda e: ({'jets': e.jets, 1: e.met}, e.a)), lambda t: t[0][1] + t[-1] + Count(t[0]['jets']))", ("leaf", "int")),
     ("ds.Select(lambda e: (e.jets, e.met)).SelectMany(lambda t: t[0].Select(lambda j: (j, t[1]))).Where(lambda p: p[0].pt > p[1]).Select(lambda p: p[0].pt)", ("leaf", "int")),
+    ("Select(Select(ds, lambda e: First(Select(e.jets, lambda j: (j.pt, j.a)))), lambda f: f[0])", ("leaf", "int")),
+    ("Select(Select(ds, lambda e: (First(Select(e.jets, lambda j: (j.pt, j.a))), e.met)), lambda u: u[0][0] + u[1])", ("leaf", "int")),
+    ("Select(Where(Select(ds, lambda e: First(Select(e.jets, lambda j: [j.pt, (j.a, e.met)]))), lambda f: f[1][0] > 0), lambda f: f[0] + f[1][1])", ("leaf", "int")),
     ("SelectMany(SelectMany(Select(ds, lambda e: (e.jets, e.a)), lambda t: Select(t[0], lambda j: (j.trk, t[1]))), lambda u: Select(u[0], lambda k: k.pt + u[1]))", ("leaf", "int")),
 ]
 
